@@ -17,7 +17,7 @@ func isInitFunc(f *ssa.Function) bool {
 	for f.Parent() != nil {
 		f = f.Parent()
 	}
-	n := f.Name()
+	n := core.FuncName(f)
 	return n == "init" || strings.HasPrefix(n, "init#")
 }
 
